@@ -2,6 +2,8 @@ SPECIFICATION ConfSpec
 CONSTANTS
   WorkerCpus = 0
   WorkerGroup = 0
+  WorkerLife = 0
+  MaxTicks = 0
   Menu = 0
   OpenJobs = 0
   Classes = 0
